@@ -1,6 +1,8 @@
 //! simdb — C13 (edit histories) and C12 (schedules / query histories) on the real salsa database.
 
 mod c12;
+#[cfg(feature = "shuttle")]
+mod preempt;
 mod c13;
 mod dbx;
 mod edits;
@@ -9,6 +11,10 @@ mod project;
 use std::path::{Path, PathBuf};
 
 use simcore::harness_error;
+
+#[cfg(feature = "shuttle")]
+#[global_allocator]
+static GLOBAL: preempt::PreemptAlloc = preempt::PreemptAlloc;
 
 fn main() {
     if std::env::var("VERIF_PANIC_TRACE").is_ok() {
